@@ -70,6 +70,24 @@ def withRes (v : HVal) (r : Heap × Res) : Heap × Res :=
   | .ok _ => (r.1, .ok v)
   | _ => r
 
+/-- split a path at `.` (byte 46) -/
+def splitPath (bs : List Nat) : List (List Nat) :=
+  let r := bs.foldr (fun b (acc : List Nat × List (List Nat)) =>
+    if b == 46 then ([], acc.1 :: acc.2) else (b :: acc.1, acc.2)) ([], [])
+  r.1 :: r.2
+
+/-- `KMap::remove_path`: walk through nested maps along string keys, `KMap::remove` at the end -/
+def removePath (F : FloatOps) (mech : Bool) (heap : Heap) : List (List Nat) → Nat → Heap × Res
+  | [], _ => (heap, .ok .null)
+  | [seg], h => onMap F mech heap h (.remove (.str seg))
+  | seg :: rest, h =>
+    match getMap heap h with
+    | some es =>
+      (match lookupBy (getM F mech es.length) (.str seg) es with
+       | some (.mref h') => removePath F mech heap rest h'
+       | _ => (heap, .ok .null))
+    | none => (heap, .err .type)
+
 /-- one operation on evaluated arguments -/
 def applyOp (F : FloatOps) (mech : Bool) (name : String) (args : List HVal) (heap : Heap) : Heap × Res :=
   match name, args with
@@ -109,6 +127,37 @@ def applyOp (F : FloatOps) (mech : Bool) (name : String) (args : List HVal) (hea
   | "sortval", [.mref h] => onMap F mech heap h .sortVal
   | "updateinc", [.mref h, k, d] =>
     (match toKey? k with | some key => onMap F mech heap h (.updateInc key d) | none => (heap, .err .unhashable))
+  -- the host (Rust) API, called in-process by the harness on the very same objects
+  | "h_insert", [.mref h, k, v] =>        -- KMap::insert
+    (match toKey? k with | some key => withRes .null (onMap F mech heap h (.insert key v)) | none => (heap, .err .unhashable))
+  | "h_remove", [.mref h, k] =>           -- KMap::remove ("The order of entries in the map is preserved")
+    (match toKey? k with | some key => onMap F mech heap h (.remove key) | none => (heap, .err .unhashable))
+  | "h_remove_path", [.mref h, .str p] => removePath F mech heap (splitPath p) h
+  | "h_get", [.mref h, k] =>              -- KMap::get
+    (heap, match toKey? k, getMap heap h with
+      | some key, some es => .ok ((lookupBy (getM F mech es.length) key es).getD .null)
+      | none, _ => .err .unhashable
+      | _, none => .err .type)
+  | "h_len", [.mref h] => (heap, match getMap heap h with | some es => .ok (.num (.i (Int64.ofNat es.length))) | none => .err .type)
+  | "h_clear", [.mref h] => withRes .null (onMap F mech heap h .clear)   -- KMap::clear
+  | "h_slice", [.mref h, .num (.i a), .num (.i b)] =>                    -- ValueMap::make_data_slice(a..b)
+    (match getMap heap h with
+     | some es =>
+       let (x, y) := (a.toInt.toNat, b.toInt.toNat)
+       if x ≤ y ∧ y ≤ es.length then let r := allocMap heap ((es.drop x).take (y - x)); (r.1, .ok r.2)
+       else (heap, .ok .null)
+     | none => (heap, .err .type))
+  | "h_keys", [.mref h] =>                                               -- ValueMap keys() in index order
+    (heap, match getMap heap h with | some es => .ok (.tuple (es.map (fun e => ofVal e.1))) | none => .err .type)
+  | "h_push", [.lref h, v] => withRes .null (onList F heap h (.push v))  -- KList::data_mut().push
+  | "h_len", [.lref h] => (heap, match getList heap h with | some xs => .ok (.num (.i (Int64.ofNat xs.length))) | none => .err .type)
+  | "h_subtuple", [.tuple xs, .num (.i a), .num (.i b)] =>               -- KTuple::make_sub_tuple(a..b)
+    let (x, y) := (a.toInt.toNat, b.toInt.toNat)
+    (heap, if x ≤ y ∧ y ≤ xs.length then .ok (.tuple ((xs.drop x).take (y - x))) else .ok .null)
+  | "h_pop_front", [.tuple xs] =>                                        -- KTuple::pop_front on a clone
+    (heap, match xs with | [] => .ok .null | x :: rest => .ok (.tuple [x, .tuple rest]))
+  | "h_pop_back", [.tuple xs] =>
+    (heap, match xs.getLast? with | none => .ok .null | some x => .ok (.tuple [x, .tuple xs.dropLast]))
   | "first", [.lref h] => (heap, match getList heap h with | some xs => .ok (xs.head?.getD .null) | none => .err .type)
   | "last", [.lref h] => (heap, match getList heap h with | some xs => .ok (xs.getLast?.getD .null) | none => .err .type)
   | "get", [.lref h, .num i] =>
